@@ -2,7 +2,7 @@
 # usage: tools/sweep.sh <tier> [seed]  - every check once, one line per property (run from the /verif copy at hand)
 cd "$(dirname "$0")/.."
 tier=${1:-quick}
-for p in C01 C02 C03 C04 C05 C06 C07 C08 C09 C10 C11 C12 C13 C14 C15 C16 C17 C18 C19 C20; do
+for p in ${PROPS:-C01 C02 C03 C04 C05 C06 C07 C08 C09 C10 C11 C12 C13 C14 C15 C16 C17 C18 C19 C20}; do
   s=$(date +%s)
   VERIF_SEED=${2:-0} ./check $p --tier $tier > /tmp/sweep_$p.out 2>&1
   rc=$?
